@@ -385,6 +385,10 @@ static std::string resetLine(const Cfg& c, const std::string& tag, int fix) {
 }
 
 static bool siteFilter(const char* s) {
+  // the task set's own schedule points (Ts*) belong to C02/C04/C05: at pipeline level packageTask,
+  // the cancellation check and the exception slot are atomic steps (spec/pipeline/Pipeline.tla)
+  if (s[0] == 'T' && s[1] == 's')
+    return false;
   return poolproj::siteFilter(s) || (s[0] == 'P' && s[1] == 'l');
 }
 
